@@ -3,9 +3,14 @@ Model of lib/runtime/allocator/freeing_bump.go (the Wasm freeing-bump heap alloc
 
 Every definition mirrors one Go function.  `uint32` arithmetic that can wrap is written with an
 explicit `% U32`; `uint64` arithmetic is `Nat` (the quantities stay far below 2^64).
+Large literals are written as the LEFT operand of `+`/`*` (`PAGE * pages`, `OCC + o`): `Nat.add`
+and `Nat.mul` recurse on the right operand, and the Lean kernel would otherwise peel a literal
+like 65536 one successor at a time whenever it evaluates such a term.
 The linear memory (`runtime.Memory`) is a page count, a growth limit of the environment and a
 byte map; a `uint64` access is little endian, exactly as wazero and the test memory do it.
-Core Lean only.
+The byte contents live in a `Store` (any type with `get`/`set`): the compiled driver plugs in a hash
+map, the theorems hold for every store in which a `get` after a `set` returns the value set
+(`Store.Lawful`, Props).  Core Lean only.
 -/
 namespace Gossamer.C28
 
@@ -28,36 +33,60 @@ abbrev OCC : Nat := 4294967296
 
 /-! ## linear memory -/
 
-structure Mem where
+/-- a byte map: address ↦ value < 256 -/
+structure Store where
+  σ : Type
+  empty : σ
+  get : σ → Nat → Nat
+  set : σ → Nat → Nat → σ
+
+/-- the obvious store (used for worked examples; the driver uses a hash map) -/
+def funStore : Store :=
+  { σ := Nat → Nat, empty := fun _ => 0, get := fun b a => b a,
+    set := fun b a v => fun x => if x = a then v else b x }
+
+structure Mem (S : Store) where
   /-- current size in pages -/
   pages : Nat
   /-- `Grow` fails when the page count would exceed this (property of the environment) -/
   maxPages : Nat
-  /-- contents, one value < 256 per address -/
-  bytes : Nat → Nat
+  /-- contents -/
+  bytes : S.σ
+
+variable {S : Store}
 
 /-- `mem.Size()` -/
-def Mem.size (m : Mem) : Nat := m.pages * PAGE
+def Mem.size (m : Mem S) : Nat := PAGE * m.pages
+
+def byteAt (b : S.σ) (a : Nat) : Nat := S.get b a
 
 /-- little-endian `uint64` at address `a` -/
-def le64 (b : Nat → Nat) (a : Nat) : Nat :=
-  b a + 256 * b (a + 1) + 65536 * b (a + 2) + 16777216 * b (a + 3) + 4294967296 * b (a + 4)
-    + 1099511627776 * b (a + 5) + 281474976710656 * b (a + 6) + 72057594037927936 * b (a + 7)
+def le64 (b : S.σ) (a : Nat) : Nat :=
+  byteAt b a + 256 * byteAt b (a + 1) + 65536 * byteAt b (a + 2) + 16777216 * byteAt b (a + 3)
+    + 4294967296 * byteAt b (a + 4) + 1099511627776 * byteAt b (a + 5)
+    + 281474976710656 * byteAt b (a + 6) + 72057594037927936 * byteAt b (a + 7)
 
 /-- store the little-endian `uint64` `v` at address `a` -/
-def put64 (b : Nat → Nat) (a v : Nat) : Nat → Nat :=
-  fun x => if a ≤ x ∧ x < a + 8 then (v / 256 ^ (x - a)) % 256 else b x
+def put64 (b : S.σ) (a v : Nat) : S.σ :=
+  let b := S.set b a (v % 256)
+  let b := S.set b (a + 1) (v / 256 % 256)
+  let b := S.set b (a + 2) (v / 65536 % 256)
+  let b := S.set b (a + 3) (v / 16777216 % 256)
+  let b := S.set b (a + 4) (v / 4294967296 % 256)
+  let b := S.set b (a + 5) (v / 1099511627776 % 256)
+  let b := S.set b (a + 6) (v / 281474976710656 % 256)
+  S.set b (a + 7) (v / 72057594037927936 % 256)
 
 /-- `mem.ReadUint64Le(a)`: fails when the 8 bytes are not inside the memory -/
-def Mem.read64 (m : Mem) (a : Nat) : Option Nat :=
+def Mem.read64 (m : Mem S) (a : Nat) : Option Nat :=
   if a + 8 ≤ m.size then some (le64 m.bytes a) else none
 
 /-- `mem.WriteUint64Le(a, v)` -/
-def Mem.write64 (m : Mem) (a v : Nat) : Option Mem :=
+def Mem.write64 (m : Mem S) (a v : Nat) : Option (Mem S) :=
   if a + 8 ≤ m.size then some { m with bytes := put64 m.bytes a v } else none
 
 /-- `mem.Grow(delta)` -/
-def Mem.grow (m : Mem) (d : Nat) : Option Mem :=
+def Mem.grow (m : Mem S) (d : Nat) : Option (Mem S) :=
   if m.pages + d ≤ m.maxPages then some { m with pages := m.pages + d } else none
 
 /-! ## orders -/
@@ -104,7 +133,7 @@ inductive Header
 deriving DecidableEq, Repr
 
 /-- `readHeaderFromMemory` -/
-def readHeader (m : Mem) (hp : Nat) : Except Err Header :=
+def readHeader (m : Mem S) (hp : Nat) : Except Err Header :=
   match m.read64 hp with
   | none => .error .cannotRead
   | some raw =>
@@ -116,7 +145,7 @@ def readHeader (m : Mem) (hp : Nat) : Except Err Header :=
 /-- raw encoding written by `writeHeaderInto` -/
 def rawHeader : Header → Nat
   | .free link => link
-  | .occupied o => o + OCC
+  | .occupied o => OCC + o
 
 /-! ## allocator state -/
 
@@ -138,18 +167,19 @@ def setHead (h : Nat → Nat) (o v : Nat) : Nat → Nat := fun i => if i = o the
 
 /-- `NewFreeingBumpHeapAllocator(heapBase)` -/
 def newAlloc (heapBase : Nat) : St :=
-  let aligned := ((heapBase + HDR - 1) % U32) / 8 * 8
+  let aligned := 8 * (((heapBase + HDR - 1) % U32) / 8)
   { base := aligned, bumper := aligned, heads := fun _ => NIL, poisoned := false, lastSize := 0,
     bytesAllocated := 0, peak := 0, sum := 0, addrUsed := 0 }
 
 /-- `pagesFromSize` (`none`: does not fit `uint32`) -/
 def pagesFromSize (size : Nat) : Option Nat :=
-  let v := (size + PAGE - 1) / PAGE
+  let v := (PAGE - 1 + size) / PAGE
   if v > 4294967295 then none else some v
 
 /-- `bump(&bumper, size, mem)`: result pointer, new bumper, memory (possibly grown) -/
-def bump (bumper size : Nat) (m : Mem) : Except Err (Nat × Nat × Mem) :=
+def bump (bumper size : Nat) (m : Mem S) : Except Err (Nat × Nat × Mem S) :=
   let required := bumper + size
+  if required > 4294967295 then .error .outOfSpace else
   if required > m.size then
     match pagesFromSize required with
     | none => .error .outOfSpace
@@ -160,25 +190,25 @@ def bump (bumper size : Nat) (m : Mem) : Except Err (Nat × Nat × Mem) :=
         if currentPages ≥ MAX_PAGES then .error .outOfSpace
         else if requiredPages > MAX_PAGES then .error .outOfSpace
         else
-          let nextPages := min (currentPages * 2 % U32) MAX_PAGES
+          let nextPages := min (2 * currentPages % U32) MAX_PAGES
           let nextPages := max nextPages requiredPages
-          match m.grow ((nextPages + U32 - currentPages) % U32) with
+          match m.grow ((U32 + nextPages - currentPages) % U32) with
           | none => .error .cannotGrow
           | some m' => .ok (bumper, (bumper + size) % U32, m')
   else .ok (bumper, (bumper + size) % U32, m)
 
 /-- tail of `Allocate`: write the occupied header, update the statistics -/
-def allocFinish (s : St) (m : Mem) (o hp : Nat) : St × Mem × Except Err Nat :=
+def allocFinish (s : St) (m : Mem S) (o hp : Nat) : St × Mem S × Except Err Nat :=
   match m.write64 hp (rawHeader (.occupied o)) with
   | none => (s, m, .error .cannotWrite)
   | some m' =>
     let ba := (s.bytesAllocated + (osize o + HDR)) % U32
     let s' := { s with bytesAllocated := ba, sum := s.sum + (osize o + HDR), peak := max s.peak ba,
-                       addrUsed := (s.bumper + U32 - s.base) % U32 }
+                       addrUsed := (U32 + s.bumper - s.base) % U32 }
     (s', m', .ok ((hp + HDR) % U32))
 
 /-- body of `Allocate` after the poisoned check (state changes made before an error persist) -/
-def allocCore (s : St) (m : Mem) (size : Nat) : St × Mem × Except Err Nat :=
+def allocCore (s : St) (m : Mem S) (size : Nat) : St × Mem S × Except Err Nat :=
   if m.size < s.lastSize then (s, m, .error .shrunk) else
   let s := { s with lastSize := m.size }
   match orderFromSize size with
@@ -196,17 +226,17 @@ def allocCore (s : St) (m : Mem) (size : Nat) : St × Mem × Except Err Nat :=
       | .error e => (s, m, .error e)
       | .ok (res, bumper', m') => allocFinish { s with bumper := bumper' } m' o res
 
-def poisonOnErr {α : Type} (r : St × Mem × Except Err α) : St × Mem × Except Err α :=
+def poisonOnErr {α : Type} (r : St × Mem S × Except Err α) : St × Mem S × Except Err α :=
   match r with
   | (s, m, .error e) => ({ s with poisoned := true }, m, .error e)
   | (s, m, .ok v) => (s, m, .ok v)
 
 /-- `Allocate(mem, size)` -/
-def allocate (s : St) (m : Mem) (size : Nat) : St × Mem × Except Err Nat :=
+def allocate (s : St) (m : Mem S) (size : Nat) : St × Mem S × Except Err Nat :=
   if s.poisoned then (s, m, .error .poisoned) else poisonOnErr (allocCore s m size)
 
 /-- body of `Deallocate` after the poisoned check -/
-def deallocCore (s : St) (m : Mem) (ptr : Nat) : St × Mem × Except Err Unit :=
+def deallocCore (s : St) (m : Mem S) (ptr : Nat) : St × Mem S × Except Err Unit :=
   if m.size < s.lastSize then (s, m, .error .shrunk) else
   let s := { s with lastSize := m.size }
   if ptr < HDR then (s, m, .error .badPtr) else
@@ -224,7 +254,7 @@ def deallocCore (s : St) (m : Mem) (ptr : Nat) : St × Mem × Except Err Unit :=
       else ({ s with bytesAllocated := s.bytesAllocated - (osize o + HDR) }, m', .ok ())
 
 /-- `Deallocate(mem, ptr)` -/
-def deallocate (s : St) (m : Mem) (ptr : Nat) : St × Mem × Except Err Unit :=
+def deallocate (s : St) (m : Mem S) (ptr : Nat) : St × Mem S × Except Err Unit :=
   if s.poisoned then (s, m, .error .poisoned) else poisonOnErr (deallocCore s m ptr)
 
 /-! ## histories: the guest's view -/
@@ -245,9 +275,9 @@ deriving DecidableEq, Repr
 /-- allocator, memory and the guest's book-keeping: `live` = (pointer, order) of every
     allocation handed out and not yet given back; `freed` = pointers given back and not handed
     out again since -/
-structure Run where
+structure Run (S : Store) where
   s : St
-  m : Mem
+  m : Mem S
   live : List (Nat × Nat)
   freed : List Nat
 
@@ -255,7 +285,7 @@ def eraseLive (p : Nat) : List (Nat × Nat) → List (Nat × Nat)
   | [] => []
   | x :: xs => if x.1 = p then xs else x :: eraseLive p xs
 
-def Run.step (r : Run) : Op → Run × Out
+def Run.step (r : Run S) : Op → Run S × Out
   | .alloc n =>
     match allocate r.s r.m n with
     | (s', m', .ok p) =>
@@ -276,10 +306,10 @@ def Run.step (r : Run) : Op → Run × Out
     | some m' => ({ r with m := m' }, .grew true)
     | none => (r, .grew false)
 
-def Run.init (heapBase pages maxPages : Nat) : Run :=
-  { s := newAlloc heapBase, m := { pages := pages, maxPages := maxPages, bytes := fun _ => 0 },
+def Run.init (S : Store) (heapBase pages maxPages : Nat) : Run S :=
+  { s := newAlloc heapBase, m := { pages := pages, maxPages := maxPages, bytes := S.empty },
     live := [], freed := [] }
 
-def Run.exec (r : Run) (ops : List Op) : Run := ops.foldl (fun r op => (r.step op).1) r
+def Run.exec (r : Run S) (ops : List Op) : Run S := ops.foldl (fun r op => (r.step op).1) r
 
 end Gossamer.C28
